@@ -463,7 +463,43 @@ def _array_into_iter(eng, st, fr, t, args, dest, target):
     return ('iter', 'val', eng.force(st, args[0]))
 
 
-@model('core::slice::<impl [T]>::iter', 'std::slice::<impl [T]>::iter')
+@model('std::array::<impl [T; N]>::each_ref', 'core::array::<impl [T; N]>::each_ref')
+def _array_each_ref(eng, st, fr, t, args, dest, target):
+    r, p = ptr_of(eng, st, args[0])
+    v = eng.force(st, eng.load(st, r, p))
+    if v[0] == 'array':
+        return ('array', tuple(mk_ref(r, p + (('idx', C('usize', i)),)) for i in range(len(v[1]))))
+    return ('app', 'each_ref', (eng.purify(st, v),))
+
+
+@model('std::array::<impl [T; N]>::map', 'core::array::<impl [T; N]>::map')
+def _array_map(eng, st, fr, t, args, dest, target):
+    arr = eng.force(st, args[0])
+    f = args[1]
+    if arr[0] == 'array':
+        results = []
+
+        def on_item(st, v):
+            results.append(v)
+            return None
+        return run_pipeline(eng, st, dest, target, list(arr[1]), [f], on_item, lambda: ('array', tuple(results)))
+    # symbolic array: the closure is applied to one generic element
+    lid = ('array_map', fr.body.path, fr.block)
+    by_ref = arr[0] == 'app' and arr[1] == 'each_ref'
+    src = arr[2][0] if by_ref else eng.purify(st, arr)
+    el = ('iterval', lid, ('iter', 'val', src))
+    if by_ref:
+        el = mk_ref(eng.temp(st, el), ())
+
+    def cont(st, fr2, dest_, target_, rv):
+        eng.finish_call(st, fr2, dest, target, ('app', 'array_map', (src, eng.purify(st, rv))))
+    eng.call_callable(st, f, [el], ('seq', dest, target, cont))
+    return DEFER
+
+
+@model('core::slice::<impl [T]>::iter', 'std::slice::<impl [T]>::iter',
+       "core::slice::iter::<impl std::iter::IntoIterator for &'a [T]>::into_iter",
+       "std::slice::iter::<impl std::iter::IntoIterator for &'a [T]>::into_iter")
 def _slice_iter(eng, st, fr, t, args, dest, target):
     r, p = ptr_of(eng, st, args[0])
     return ('iter', 'seq', mk_ref(r, p))
@@ -477,6 +513,19 @@ def _iter_map(eng, st, fr, t, args, dest, target):
 @model('std::iter::Iterator::enumerate')
 def _iter_enum(eng, st, fr, t, args, dest, target):
     return ('iter', 'enumerate', eng.force(st, args[0]))
+
+
+@model('std::iter::Iterator::zip')
+def _iter_zip(eng, st, fr, t, args, dest, target):
+    a = eng.force(st, args[0])
+    b = eng.force(st, args[1])
+    if not (isinstance(b, tuple) and b and b[0] == 'iter'):
+        # IntoIterator argument: arrays / vecs by value, slices and collections by reference
+        if b[0] in ('array', 'vec'):
+            b = ('iter', 'val', b)
+        elif b[0] == 'ref':
+            b = ('iter', 'seq', b)
+    return ('iter', 'zip', a, b)
 
 
 @model('std::iter::Iterator::take')
@@ -598,12 +647,22 @@ def _next_generic(eng, st, fr, t, args, dest, target):
                 eng.store(st, r, p, (itv[0], itv[1], itv[2], pos + 1))
                 return SOME(items[pos])
             return NONE
+    if isinstance(itv, tuple) and itv[0] == 'iter' and itv[1] == 'zip':
+        sa = _concrete_seq(eng, st, itv[2]) if itv[2][0] == 'iter' else None
+        sb = _concrete_seq(eng, st, itv[3]) if itv[3][0] == 'iter' else None
+        if sa is not None and sb is not None:
+            pos = itv[4] if len(itv) > 4 else 0
+            if pos < min(len(sa), len(sb)):
+                eng.store(st, r, p, ('iter', 'zip', itv[2], itv[3], pos + 1))
+                return SOME(('tuple', (sa[pos], sb[pos])))
+            return NONE
     it = eng.purify(st, eng.deref_arg(st, args[0]))
     lid = eng.enclosing_loop(fr)
     return ite(('iterhas', lid, it), SOME(('iterval', lid, it)), NONE)
 
 
 for _n in ('<std::iter::Take<I> as std::iter::Iterator>::next',
+           '<std::iter::Zip<A, B> as std::iter::Iterator>::next',
            '<std::slice::Iter<\'a, T> as std::iter::Iterator>::next',
            '<std::vec::IntoIter<T, A> as std::iter::Iterator>::next',
            'std::iter::range::<impl std::iter::Iterator for std::ops::Range<A>>::next',
